@@ -10,6 +10,7 @@ schema_validator is proved in two layers (nested cut loops):
  documented policy; wrap_handler's arity adapter, set_type's field selection / transform-before-cast, validate's custom
  validators are separate items.  `cast` is tableschema's Field.cast_value: assumed total function to value | CastError (T5).
 """
+from contracts.common import fn_named
 from contracts.common import (same_row_object, Item, mk_resource, run_spec, ghost_row, expect_no_raise_or_same, _b)
 
 TRUSTED = ['T1 pyvc model of Python (DESIGN 3)', 'T5 tableschema Field.cast_value: value | CastError, deterministic',
@@ -519,7 +520,7 @@ def sym_set_type_selection(vc):
             if isinstance(y, GenObj):
                 # validator over the transformer over the resource: transform before cast
                 inner = y.args[1] if len(y.args) > 1 else None
-                ok = y.fn.name == 'schema_validator' and isinstance(inner, GenObj) and inner.fn.name == 'transformer' \
+                ok = fn_named(y, 'schema_validator') and isinstance(inner, GenObj) and fn_named(inner, 'transformer') \
                     and inner.args[1] is r and y.args[0] is r.attrs['res']
                 check(it, 'transform-before-cast-on-registered-fields', ok and
                       y.kwargs.get('field_names') is inner.args[2] and y.kwargs.get('on_error') is None)
@@ -654,7 +655,7 @@ def sym_validate_with_schema(vc):
         validator = it.lib.getattr_(it, v, 'validator')
         it.run_generator(it.call(validator, [r]))
         yf = [e for e in it.path.events if e.kind == 'YieldFrom']
-        ok = len(yf) == 1 and isinstance(yf[0].src, GenObj) and yf[0].src.fn.name == 'schema_validator' and \
+        ok = len(yf) == 1 and isinstance(yf[0].src, GenObj) and fn_named(yf[0].src, 'schema_validator') and \
             yf[0].src.args[0] is r.attrs['res'] and yf[0].src.args[1] is r and \
             yf[0].src.kwargs.get('on_error') is it.lib.getattr_(it, v, 'on_error')
         check(it, 'schema-mode-delegates-to-schema_validator-over-all-fields', ok and 'field_names' not in yf[0].src.kwargs)
